@@ -239,7 +239,9 @@ func (o *h3origin) serve(w http.ResponseWriter, r *http.Request) {
 		return
 	}
 	w.Write(s.respBody[1000:])
+	w.(http.Flusher).Flush()
 	ack(4)
+	wait(5) // the stream ends only when the handler returns
 }
 
 func startH3Origin(maxStreams ...int64) (*h3origin, error) {
@@ -398,8 +400,19 @@ func h3steps(sp h3spec) []h3step {
 		}
 		return nil
 	}})
-	st = append(st, h3step{"rest of the body sent, end of body read", []string{"ZEnd"}, func(r *h3run) error {
+	// the declared body is complete before the stream ends: the pending Read waits for the FIN
+	st = append(st, h3step{"rest of the declared body sent and read, handler still running", []string{"ZData"}, func(r *h3run) error {
 		close(r.sc.gates[4])
+		if err := waitAck(r.sc.acks[4], "handler did not write"); err != nil {
+			return err
+		}
+		if !settle(func() bool { return r.call.nread.Load() >= respBodyLen }) {
+			return errors.New("caller did not receive the body bytes")
+		}
+		return nil
+	}})
+	st = append(st, h3step{"handler returned (end of stream), end of body read", []string{"ZEnd"}, func(r *h3run) error {
+		close(r.sc.gates[5])
 		return waitCh(r.call.bodyDone, "body read did not end")
 	}})
 	return st
